@@ -1141,8 +1141,28 @@ func (c *DefaultCtx) Path(override ...string) string {
 		c.fasthttp.Request.URI().SetPath(c.pathOriginal)
 		// Prettify path
 		c.configDependentPaths()
+		// the scan cursor indexes the bucket of the old path
+		c.resyncIndexRoute()
 	}
 	return c.app.getString(c.path)
+}
+
+// resyncIndexRoute moves the scan cursor to the running route's registration position in the bucket that is
+// scanned for the current path: buckets are sorted by position, so the cursor is the last entry registered no
+// later than the running route.
+func (c *DefaultCtx) resyncIndexRoute() {
+	if c.route == nil || c.methodInt < 0 || c.methodInt >= len(c.app.treeStack) {
+		return
+	}
+	tree, ok := c.app.treeStack[c.methodInt][c.treePathHash]
+	if !ok {
+		tree = c.app.treeStack[c.methodInt][0]
+	}
+	i := 0
+	for i < len(tree) && tree[i].pos <= c.route.pos {
+		i++
+	}
+	c.indexRoute = i - 1
 }
 
 // Scheme contains the request protocol string: http or https for TLS requests.
